@@ -85,6 +85,22 @@ impl VReadStream {
         self.0.read_exact(ctx, &mut buf).await?;
         Ok(buf.as_slice().to_vec())
     }
+
+    /// `frame::mux_recv_proto::<time::Duration>` / `<validator::NetAddress>` on this stream:
+    /// returns the size of the received message.
+    pub async fn recv_proto_named(
+        &mut self,
+        ctx: &ctx::Ctx,
+        kind: &str,
+        max_size: usize,
+    ) -> anyhow::Result<usize> {
+        use zksync_concurrency::time;
+        use zksync_consensus_roles::validator;
+        Ok(match kind {
+            "std.Duration" => crate::frame::mux_recv_proto::<time::Duration>(ctx, &mut self.0, max_size).await?.1,
+            _ => crate::frame::mux_recv_proto::<validator::NetAddress>(ctx, &mut self.0, max_size).await?.1,
+        })
+    }
 }
 
 impl VWriteStream {
